@@ -767,6 +767,8 @@ def b_int(eng, args, kwargs, state, node):
     a = args[0]
     if isinstance(a, VInt):
         yield a, state
+    elif isinstance(a, VNum) and z3.is_app_of(simp(a.val), z3.Z3_OP_TO_REAL):
+        yield VInt(simp(a.val).arg(0)), state
     elif isinstance(a, VNum):
         # truncation toward zero
         fl = z3.ToInt(a.val)
